@@ -510,7 +510,16 @@ func (a *agg) add(r *wire.Result) {
 	case "violation":
 		key := r.Class + "|" + r.Oracle + "|" + r.Sig
 		a.violCount[key]++
-		if len(a.viol[key]) < 3 {
+		// three candidates per signature, and up to two more per scenario family beyond them: a candidate that
+		// fails only because of what the worker process ran before it does not reproduce alone, and must not
+		// use up the tries of one from another family that does
+		sameFam := 0
+		for _, c := range a.viol[key] {
+			if c.Scenario != nil && r.Scenario != nil && c.Scenario.Family == r.Scenario.Family {
+				sameFam++
+			}
+		}
+		if len(a.viol[key]) < 3 || (len(a.viol[key]) < 12 && sameFam < 2) {
 			a.viol[key] = append(a.viol[key], r)
 		}
 	case "error":
